@@ -85,6 +85,10 @@ def resolve_node(node: CSSProperty, snippets: list, config: Config):
 def resolve_gradient(node: CSSProperty, config: Config):
     "Resolves CSS gradient shortcut from given property, if possible"
     global gradient_name
+    if config.context and config.context['name'] == CSSAbbreviationScope.Section:
+        # Section scope permits raw snippets only: a gradient is a property
+        return False
+
     gradient_fn = None
     css_val = node.value[0] if len(node.value) == 1 else None
 
